@@ -547,6 +547,17 @@ func c16r4(c *Ctx) {
 			t = ast.Unparen(se.X)
 		}
 		b = ast.Unparen(b)
+		// (each may have been copied once into a field of a record that was split: `x.basis = req.Basis`)
+		if _, isID := b.(*ast.Ident); isID {
+			if o, isSel := ast.Unparen(origin(f, b)).(*ast.SelectorExpr); isSel {
+				b = o
+			}
+		}
+		if _, isID := t.(*ast.Ident); isID {
+			if o, isSel := ast.Unparen(origin(f, t)).(*ast.SelectorExpr); isSel {
+				t = o
+			}
+		}
 		bs, bIsSel := b.(*ast.SelectorExpr)
 		ts, tIsSel := t.(*ast.SelectorExpr)
 		if bIsSel && tIsSel {
